@@ -555,7 +555,9 @@ def design_matrix(ctx, obs):
                   where(prog, f, s))
     hs = [x for x in ast.walk(f.node) if isinstance(x, ast.Assign) and isinstance(x.targets[0], ast.Name) and x.targets[0].id == dm
           and isinstance(x.value, ast.Call) and _leaf(x.value.func) in ('hstack', 'concatenate', 'column_stack')]
-    obs.check(all(h.lineno < s.lineno for h in hs), 'POLY', q, 'dof counts the columns of the final matrix (after confounds were '
+    from ..rules.common import source_order
+    _so = source_order(f.node)
+    obs.check(all(_so.get(id(h), 0) < _so.get(id(s), 0) for h in hs), 'POLY', q, 'dof counts the columns of the final matrix (after confounds were '
               'appended)', 'dof is computed before the confound columns are appended', '', where(prog, f, s))
     # normalisation over axis 0
     norms = [x for x in ast.walk(f.node) if isinstance(x, ast.Assign) and isinstance(x.targets[0], ast.Name) and x.targets[0].id == dm
